@@ -1177,7 +1177,7 @@ class Fn:
         return f'def {sigline} : {" × ".join(rts)} :=\n' + ind(bodys)
 
 
-def extract_guard(tu, fname, idents, then_shape='return'):
+def extract_guard(tu, fname, idents, then_shape='return', allow_extra=False, then_any=False, index=None):
     """Guard extraction: the condition of the unique IfStmt in `fname` whose condition mentions exactly the
     identifier set `idents` and whose then-branch is a (bare) return; emitted as a Bool-valued Lean def whose
     parameters are the identifiers (Int for signed, Nat for unsigned)."""
@@ -1200,11 +1200,15 @@ def extract_guard(tu, fname, idents, then_shape='return'):
     def walk(n):
         if n.get('kind') == 'IfStmt':
             acc = ids(n['inner'][0], {})
-            if set(acc) == set(idents) and is_ret(n['inner'][1]):
+            if set(acc) == set(idents) and (then_any or is_ret(n['inner'][1])):
                 found.append((n, acc))
         for c in n.get('inner', []):
             walk(c)
     walk(f)
+    if index is not None:
+        if index >= len(found):
+            raise TranslateError('guard: only %d matching if-statements in %s for %s (wanted #%d)' % (len(found), fname, sorted(idents), index))
+        found = [found[index]]
     if len(found) != 1:
         raise TranslateError('guard: %d matching if-statements in %s for %s' % (len(found), fname, sorted(idents)))
     n, acc = found[0]
@@ -1212,7 +1216,9 @@ def extract_guard(tu, fname, idents, then_shape='return'):
     fn.pnames = list(idents)
     fn.locals = set(idents)
     c = fn.cond(json.loads(json.dumps(n['inner'][0])))
-    if fn.extra:
+    if fn.extra and not allow_extra:
         raise TranslateError('guard condition of %s is not closed over %s' % (fname, sorted(idents)))
-    ps = ' '.join(f'({i} : {fn.lty(acc[i])})' for i in idents)
+    ps = ' '.join(f'({i} : {fn.lty(acc[i])})' for i in idents if not (allow_extra and i in [e[2][1] if isinstance(e[2], tuple) and len(e[2]) > 1 else None for e in fn.extra]))
+    if allow_extra:
+        ps = ' '.join(f'({i} : {fn.lty(acc[i])})' for i in idents) + ''.join(' (%s : %s)' % (e[0], fn.lty(e[1]) if isinstance(e[1], str) and '→' not in e[1] and e[1] not in ('Nat', 'Int') else e[1]) for e in fn.extra)
     return ps, c
